@@ -81,7 +81,9 @@ class StreamBuffer:
         length = min(len(self.buffer), max_length)
         data = bytes(self.buffer[:length])
         del self.buffer[:length]
-        if len(data) < BUFFER_LOW_WATER:
+        if len(self.buffer) < BUFFER_HIGH_WATER:
+            # Only release a waiting push once there is room again, an
+            # empty pop (no flow control window) must not.
             await self._paused.set()
         if len(self.buffer) == 0:
             await self._is_empty.set()
